@@ -183,6 +183,40 @@ pub fn apply_case<C: NatCtx>(v: &mut Env<C>, s: &Setup<C>, cts: &[Ciphertext<C>]
     res
 }
 
+/// the prover alone with injected tape (a correspondence case, no verdict): also used by C04 to run
+/// the ordinary prover on statements that are NOT honest shuffles
+#[allow(clippy::too_many_arguments)]
+pub fn prove_raw<C: NatCtx>(
+    v: &mut Env<C>,
+    s: &Setup<C>,
+    es: &[Ciphertext<C>],
+    eps: &[Ciphertext<C>],
+    rps: &[C::X],
+    perm: &[usize],
+    label: &[u8],
+    tape: &[BigUint],
+) -> Option<(ShuffleProof<C>, PlainProof)> {
+    let ctx = v.ctx.clone();
+    let sh = Shuffler::new(&s.pk, &s.gens, &ctx);
+    load_tape(tape);
+    let rpsv: Vec<BigUint> = rps.iter().map(C::x_val).collect();
+    let mut proof = None;
+    v.case(
+        "gen_proof",
+        vec![vnats(&s.gensv), n(&s.pkv), vcts(es), vcts(eps), vnats(&rpsv), vperm(perm), b(label), vnats(tape)],
+        || match sh.gen_proof(es, eps, rps, perm, label) {
+            Ok(pf) => {
+                let pp = PlainProof::from(&pf);
+                let o = pp.val();
+                proof = Some((pf, pp));
+                Out::Ok(o)
+            }
+            Err(_) => Out::Err,
+        },
+    );
+    proof
+}
+
 /// C03: prove with injected tape, compare the proof field by field with the model, verify
 pub fn prove_case<C: NatCtx>(
     v: &mut Env<C>,
